@@ -119,7 +119,7 @@ func (t *ServerTransport) PostHandshake(handshakePacket *parser.Packet) {
 }
 
 func (t *ServerTransport) nextPacket() (*parser.Packet, error) {
-	return nextPacket(t.limitedReader)
+	return nextPacketWithLimit(t.limitedReader, t.readLimit)
 }
 
 func (t *ServerTransport) ServeHTTP(w http.ResponseWriter, r *http.Request) {
